@@ -706,6 +706,9 @@ pub fn c07_check<const N: usize>(o: &Opts, rep: &mut Report) {
         }
     }
     finish_space(rep, &sp);
+    if o.shard.0 == 0 {
+        crate::zst::zst_twin::<N>("C07", rep);
+    }
 }
 
 pub fn replay_c07<const N: usize>(c: &Case) -> Result<i32, String> {
@@ -1123,6 +1126,9 @@ pub fn c09_check<const N: usize>(o: &Opts, rep: &mut Report) {
         }
     }
     finish_space(rep, &sp);
+    if o.shard.0 == 0 {
+        crate::zst::zst_twin::<N>("C09", rep);
+    }
 }
 
 // =====================================================================================  C12
@@ -1181,6 +1187,9 @@ pub fn c12_check<const N: usize>(o: &Opts, rep: &mut Report) {
         rep.evaluations += 1;
     }
     finish_space(rep, &sp);
+    if o.shard.0 == 0 {
+        crate::zst::zst_twin::<N>("C12", rep);
+    }
 }
 
 pub fn c12_independence<const N: usize>(recipe: &Recipe) -> Vec<Problem> {
